@@ -209,6 +209,9 @@ func init() {
 	for _, id := range []string{"C17", "C18"} {
 		props[id].Harnesses = append(props[id].Harnesses, HarnessSpec{Name: "VH_C18_two_documents", Replay: "native", Unwind: 2000})
 	}
+	for _, id := range []string{"C08", "C11"} {
+		props[id].Harnesses = append(props[id].Harnesses, HarnessSpec{Name: "VH_C11_encrypted_layouts", Replay: "native", Unwind: 400})
+	}
 	trust := HarnessSpec{Name: "VH_C02_trust_store", Replay: "native", Unwind: 400}
 	for _, id := range []string{"C01", "C02", "C04", "C10"} {
 		props[id].Harnesses = append(props[id].Harnesses, trust)
